@@ -30,6 +30,9 @@ UNIT = dict(
         dict(id="FileType", kind="type", src=E + "fs.rs", name="FileType", structural=True),
         dict(id="Signal", kind="type", src="crates/signals/src/lib.rs", name="Signal", structural=True),
         dict(id="Tag", kind="type", src=E + "event.rs", name="Tag", drop_derive=["Clone"]),
+        dict(id="Event::signals", kind="fn", src=E + "event.rs", impl="impl Event", name="signals", rules=dict(vec_idioms=True)),
+        dict(id="Event::paths", kind="fn", src=E + "event.rs", impl="impl Event", name="paths",
+             rules=dict(vec_idioms=True, pre_subst=[("path.as_path()", "*path"), ("file_type.as_ref()", "*file_type")])),
         dict(id="signal::send_event", kind="fn", src=L + "sources/signal.rs", name="send_event"),
         dict(id="keyboard::send_event", kind="fn", src=L + "sources/keyboard.rs", name="send_event"),
         dict(id="fs::process_event", kind="fn", src=L + "sources/fs.rs", name="process_event", rules=dict(question_from="vx_id")),
